@@ -9,7 +9,7 @@ from collections import Counter
 HARNESSES = [
     ("network/dag/tree", ["network/dag/tree/zz_verif_c08_test.go", "network/dag/tree/zz_verif_c08codec_test.go",
                           "network/dag/tree/zz_verif_c08_export.go"], "c08tree"),
-    ("network/dag", ["network/dag/zz_verif_c08_test.go", "network/dag/zz_verif_c08codec_test.go",
+    ("network/dag", ["network/dag/zz_verif_c08_test.go", "network/dag/zz_verif_c08codec_test.go", "network/dag/zz_verif_c08phase_test.go",
                      "network/dag/tree/zz_verif_c08_export.go"], "c08state"),
 ]
 
@@ -32,6 +32,9 @@ REQUIRED = [
     # round 3: Add as two store transactions, all interleavings of concurrent callers (Props/C08Phases.lean)
     "fact_add_phases", "add_is_read_then_write", "verifyPrevs_grow", "concurrent_adds_refine_spec",
     "concurrent_schedule_refines_spec", "stale_verdict_still_valid", "lost_race_changes_nothing", "winner_stores_once",
+    # round 3: the repair's own write transaction fails (Props/C08RepairFault.lean)
+    "fact_repair_fault", "failed_repair_keeps_disk_same_memory", "repair_restores_memory_even_if_commits_fail",
+    "failed_repair_idle_on_healthy_state", "failed_repair_is_not_durable_witness",
 ]
 
 STATELESS = ("tcx", "tci", "tcm", "tca", "tnb", "ckey", "kclk", "phl", "mget")  # replayed alone
@@ -236,7 +239,7 @@ def run_level(ctx, level, pkg, files, name, marker, env_extra):
 
 def run(ctx):
     ctx.facts()
-    thms = ctx.build_and_audit(["NutsProofs.Props.C08", "NutsProofs.Props.C08Phases"])
+    thms = ctx.build_and_audit(["NutsProofs.Props.C08", "NutsProofs.Props.C08Phases", "NutsProofs.Props.C08RepairFault"])
     for r in REQUIRED:
         if not any(t.endswith("Props." + r) for t in thms):
             ctx.oblige("thm-present:" + r, False, "theorem missing or its module does not build")
@@ -296,7 +299,7 @@ def run(ctx):
                     cur = o.get("hist", "")
                     hist[re.sub(r"-\d+(-pos\d+-[a-z-]+)?$", "", cur)] += 1
                     n_adm, maxclk = 0, 0
-                elif o["op"] in ("add", "dupadd"):
+                elif o["op"] in ("add", "dupadd", "between"):
                     n_adm += 1
                     maxclk = max(maxclk, o.get("clk", 0))
             if cur is not None:
@@ -311,7 +314,7 @@ def run(ctx):
     st = dist.get("state", {})
     tr = dist.get("tree", {})
     ctx.cov["distinct_nontrivial"] = sum(v for k, v in st.items() if k in ("add:ok", "add:err:commit-failed", "add:err:payload-hash-mismatch",
-                                         "add:err:root-exists", "add:err:missing-prev", "add:err:bad-clock", "restart", "check", "corruptDisk", "corruptMem", "batch")) + \
+                                         "add:err:root-exists", "add:err:missing-prev", "add:err:bad-clock", "restart", "check", "checkFail", "corruptDisk", "corruptMem", "batch")) + \
         sum(v for k, v in tr.items() if k in ("tins", "tdel", "tload", "trepl", "tlb", "tdrop"))
     ctx.cov["traces_validated_against_impl"] = tot["lines"] - tot["bad"]
     ctx.cov["rule"] = ("tree level: random Insert/Delete/Updates+persist/Load/Replace sequences on trees of leaf size 2, 4 and 512 (XOR) and IBLTs of 6, 16 and 1024 "
